@@ -129,8 +129,8 @@ def run_case(sc: Dict[str, Any]) -> Outcome:
         kinds = [e[2] for e in evs]
         to = sp.get("timeout")
         is_async = sp["kind"] == "async"
-        timed_out = is_async and to is not None and sp["dur"] > float(to)
-        tie = is_async and to is not None and sp["dur"] == float(to)
+        timed_out = wh.timeout_verdict(sp) == "timeout"
+        tie = wh.timeout_verdict(sp) == "tie"
         if "enter" not in kinds:
             out.add("C07.d", f"message {i} was not executed; events={kinds}")
             continue
@@ -193,9 +193,9 @@ def run_case(sc: Dict[str, Any]) -> Outcome:
             is_async = sp["kind"] == "async"
             if i not in taken:
                 undecided = True
-            elif is_async and to is not None and sp["dur"] == float(to):
+            elif wh.timeout_verdict(sp) == "tie":
                 undecided = True
-            elif is_async and to is not None and sp["dur"] > float(to):
+            elif wh.timeout_verdict(sp) == "timeout":
                 exp.append((True, "TimeoutError"))
             elif sp["out"] == "NoResult":
                 pass
